@@ -33,6 +33,66 @@ def state_events(b, mod):
     return [e for e in atomic_events(b) if e["field"] and e["field"].endswith(f"{mod}::EventInner::state")]
 
 
+def _reaches_waker_call(prog, b, bb, methods, depth=4):
+    """Does the call at bb of b invoke Waker::<one of methods>, itself or through functions of the analysed crates?"""
+    t = b.blocks[bb].term
+
+    def is_hit(tt):
+        c = tt["callee"]
+        st = c.get("self_ty") or {}
+        k = callee_key(c)
+        if c.get("method") in methods and ("task::Waker" in k or "task::wake::Waker" in k or (st.get("head", "") or "").endswith("Waker")):
+            return True
+        return False
+    if is_hit(t):
+        return b.loc(t["span"])
+    seen = set()
+    work = [(prog.body_for_callee(t["callee"]), depth)]
+    while work:
+        cb, d = work.pop()
+        if cb is None or cb.key in seen or d == 0:
+            continue
+        seen.add(cb.key)
+        for b2, t2 in cb.calls():
+            if cb.blocks[b2].cleanup:
+                continue
+            if is_hit(t2):
+                return f"{cb.name} -> {cb.loc(t2['span'])}"
+            work.append((prog.body_for_callee(t2["callee"]), d - 1))
+    return None
+
+
+def signal_takes(b, mod="auto"):
+    """Attempts to consume the stored signal inside b: calls of EventInner::try_wait, or - when that one-line helper is
+    written out / spliced in - the fetch_and that clears SIGNALED."""
+    out = [{"bb": bb, "term": t, "form": "call", "name": "try_wait"} for bb, t in calls_to(b, f"{mod}::EventInner::try_wait")]
+    if b.name != "try_wait":
+        for e in state_events(b, mod):
+            v = e["vals"][0] if e["vals"] else None
+            if e["op"] == "fetch_and" and v is not None and (v & SIG) == 0 and (v & HAS_WAITERS) and not b.blocks[e["bb"]].cleanup:
+                out.append({"bb": e["bb"], "term": e["term"], "form": "inline", "name": "try_wait"})
+    return out
+
+
+def take_failed(b, g, site):
+    """Does switch guard g say: the consumption attempt `site` found no signal?"""
+    src = g["src"]
+    if site["form"] == "call":
+        return src.get("kind") == "call" and src.get("bb") == site["bb"] and g["allowed"] == {0}
+    # (previous & SIGNALED) != 0 / == 0 on the result of the fetch_and
+    if src.get("kind") != "cmp" or src.get("const") != 0 or src.get("op") not in ("Ne", "Eq"):
+        return False
+    inner = src.get("lhs") or {}
+    if not (inner.get("kind") == "cmp" and inner.get("op") == "BitAnd" and inner.get("const") == SIG):
+        return False
+    call = inner.get("lhs") or {}
+    if not (call.get("kind") == "call" and call.get("bb") == site["bb"]):
+        return False
+    if src["op"] == "Ne":
+        return g["allowed"] == {0}
+    return bool(g["allowed"]) and 0 not in g["allowed"]
+
+
 def run(ctx):
     ctx.explanation = EXPL
     ctx.not_decided = NOT
@@ -70,6 +130,15 @@ def run(ctx):
                 live = [gl.guard_locals[l] for l in gl.live_at_term(bb)]
                 ctx.ob("R1.wake-outside-mutex", f"{mod}.{name}.wake#{i}", not live, b.loc(t["span"]),
                        f"Waker::wake with guards live: {live or 'none'}")
+            # a waker CLONE is a user callback as well (and may panic): made while the waiter-list guard is live, a panic in it
+            # poisons the event's mutex - every later set() panics and the waiters already registered are never released.
+            # (Waker DROPs under the guard - register replacing a stored waker, unregister - are existing behaviour, not judged.)
+            for bb, t in b.calls():
+                if b.blocks[bb].cleanup or not gl.live_at_term(bb):
+                    continue
+                hit = _reaches_waker_call(prog, b, bb, ("clone", "clone_from"))
+                ctx.ob("R1.wake-outside-mutex", f"{mod}.{name}.no-waker-clone-under-lock@{callee_key(t['callee']).split('::')[-1]}", hit is None, b.loc(t["span"]),
+                       f"call made with the waiter-list guard live; reaches Waker::clone: {hit or 'no'}")
         # ---------------- R2
         b = fn["poll_wait"]
         dom = b.dominators(unwind=False)
@@ -83,7 +152,8 @@ def run(ctx):
             fbb, rbb = fo[0]["bb"], reg[0][0]
             # re-read of the signal between the two
             if mod == "auto":
-                rereads = [bb for bb, t in calls_to(b, f"{mod}::EventInner::try_wait") if fbb in dom[bb]]
+                takes = [x for x in signal_takes(b, mod) if fbb in dom[x["bb"]]]
+                rereads = [x["bb"] for x in takes]
             else:
                 rereads = [e["bb"] for e in evs if e["op"] == "load" and fbb in dom[e["bb"]]]
             okp, _ = b.must_pass(b.term_succ(fbb, False), rereads, [rbb])
@@ -91,7 +161,7 @@ def run(ctx):
             g_ok = False
             for g in switch_guards(b, rbb, dom=dom):
                 src = g["src"]
-                if mod == "auto" and src.get("kind") == "call" and src.get("bb") in rereads and g["allowed"] == {0}:
+                if mod == "auto" and any(take_failed(b, g, x) for x in takes):
                     g_ok = True
                 if mod == "manual" and src.get("kind") in ("cmp", "binop") and g.get("discr_local") is not None:
                     sl = Slice(b, through_calls=False).run({"k": "copy", "place": {"l": g["discr_local"], "p": []}})
@@ -111,7 +181,7 @@ def run(ctx):
                f"take_notification sites {len(tn)}; one of them lies between lock() and register: {ok}")
         # signal re-check under the lock before setting the flag
         if mod == "auto":
-            pre = [bb for bb, t in calls_to(b, f"{mod}::EventInner::try_wait") if lk and lk[0][0] in dom[bb] and fo and bb in dom[fo[0]["bb"]]]
+            pre = [x["bb"] for x in signal_takes(b, mod) if lk and lk[0][0] in dom[x["bb"]] and fo and x["bb"] in dom[fo[0]["bb"]]]
         else:
             pre = [e["bb"] for e in evs if e["op"] == "load" and lk and lk[0][0] in dom[e["bb"]] and fo and e["bb"] in dom[fo[0]["bb"]]]
         ctx.ob("R2.set-flag-then-recheck", f"{mod}.poll_wait.signal-check-under-lock-before-flag", bool(pre), b.loc(),
@@ -405,6 +475,9 @@ def local_rules(ctx, prog):
         b = fns.get(("local_auto", name))
         if b is None:
             continue
+        if name == "drop_wait" and calls_to(b, "local_auto::Inner::set"):
+            # the cancelled-notification branch may hand over to the event's own `set` instead of repeating its steps
+            b = prog.inlined_body(b, lambda cb: cb.key == "events::local_auto::Inner::set")
         n1 = calls_to(b, "AwaiterSet::notify_one")
         wk = [(bb, t) for bb, t in b.calls() if t["callee"].get("method") == "wake" and "task::Waker" in callee_key(t["callee"])]
         stores = []
@@ -585,20 +658,27 @@ def poll_rules(ctx, prog):
     b = prog.one("events::auto::EventInner::poll_wait")
     if b is None:
         return
-    cons = [(bb, t) for bb, t in b.calls() if not b.blocks[bb].cleanup and t["callee"].get("method") in ("try_wait", "take_notification")]
+    sites = [{"bb": bb, "term": t, "form": "call", "name": "take_notification"} for bb, t in b.calls()
+             if not b.blocks[bb].cleanup and t["callee"].get("method") == "take_notification"] + signal_takes(b, "auto")
+    cons = [(x["bb"], x["term"]) for x in sites]
     pairs = 0
-    for bb1, t1 in cons:
+    for s1 in sites:
+        bb1, t1 = s1["bb"], s1["term"]
         after = b.successors_reach(bb1, unwind=False)
-        for bb2, t2 in cons:
+        for s2 in sites:
+            bb2, t2 = s2["bb"], s2["term"]
             if bb2 == bb1 or bb2 not in after:
                 continue
             pairs += 1
             ok = False
             for g in switch_guards(b, bb2):
+                if s1["form"] == "inline":
+                    ok = ok or take_failed(b, g, s1)
+                    continue
                 sl = Slice(b).run(b.blocks[g["bb"]].term["discr"])
                 if any(ct is t1 for _k, _b, ct in sl["calls"]) and g["allowed"] == {0}:
                     ok = True
-            ctx.ob("R10.one-consumption-per-poll", f"auto.poll_wait:{t1['callee'].get('method')}@{_ordinal(cons, bb1)}->{t2['callee'].get('method')}@{_ordinal(cons, bb2)}", ok, b.loc(t2["span"]),
+            ctx.ob("R10.one-consumption-per-poll", f"auto.poll_wait:{s1['name']}@{_ordinal(cons, bb1)}->{s2['name']}@{_ordinal(cons, bb2)}", ok, b.loc(t2["span"]),
                    f"the later attempt runs only when the earlier one returned false: {ok}" + ("" if ok else " - a waiter that is both notified and facing a stored signal consumes both"))
     if pairs == 0:
         ctx.missing("R10.one-consumption-per-poll", "consumption attempts in events::auto::EventInner::poll_wait")
